@@ -52,6 +52,8 @@ var c20Stmts = []string{
 	"add_key(ml, '''a\r\nb''')", // a multi-line literal spanning a CRLF line break
 	`add_key(time, 42)`,                  // a key named like the point's own time
 	`set_tag(host, "h") ; add_key(source, "s")`,
+	`add_key(js, [1, "two", {"k": null}])`, // a field whose text is itself JSON
+	`use('sib.p')`,                           // the other quote style
 }
 
 // the sibling is a CRLF file with a multi-line literal across a line break
@@ -92,6 +94,8 @@ func c20Inputs() []c20Input {
 		{"lp-notime", "lineprotocol", "disk,t=x f1=1i,f1s=\"m3\",ts=\"nonsense\"\n"},
 		{"lp-two-points", "lineprotocol", "first f1=1i,f1s=\"a\" 1600000000000000000\nsecond f1=2i 1600000001000000000\n"},
 		{"lp-leading-comment", "lineprotocol", "# a comment line\n\nlate,host=h f1=4i,f1s=\"m4\",ts=\"2021-01-02 03:04:05\" 1600000002000000000\n"},
+		{"lp-small-timestamp", "lineprotocol", "tiny,host=h f1=6i,f1s=\"m6\",ts=\"2021-01-02 03:04:05\" 1600000000\n"},
+		{"text-json-line", "text", "{\"level\": \"info\", \"n\": [1, 2]}"},
 		{"text-empty", "text", ""},
 		{"text-blank", "text", "  \t\r\n"},
 		{"text-multiline", "text", "first line\nsecond line\n"},
@@ -411,7 +415,7 @@ func c20Run(w *run.Worker) {
 				for ci, cf := range cfgs {
 					// quick tier: every script with a rotating subset of (input, config); thorough: all combinations for <=2 statements
 					if !w.Thorough || len(cur) == 3 {
-						if (counter*31+ii*6+ci)%13 != 0 {
+						if (counter*31+ii*6+ci)%19 != 0 {
 							continue
 						}
 					}
@@ -476,7 +480,7 @@ func init() {
 		ID:    "C20",
 		Level: "model_checking",
 		Rule: "every script of <=2 (thorough <=3) statements over 16 statements (add_key with int/str/float, set_tag, drop_key, rename, set_measurement literal and from a key with delete, default_time with and without zone, use of a sibling, exit, a run-time error, a load error, cast) " +
-			"x 10 inputs (text, empty text, blank text, multi-line text; line protocol with tags, without tags, without timestamp, with two points, with leading comment and blank lines, with a newline inside a string field) x {workspace directory with a symlinked .p sibling, a .ppl sibling, two scripts that do not load (neither selected nor used), a non-script file and a directory named like a script; single file} x {json, lineprotocol} x {run, check only}, through the real binary " +
+			"x 12 inputs (text, a JSON log line, empty text, blank text, multi-line text; line protocol with a small explicit timestamp, line protocol with tags, without tags, without timestamp, with two points, with leading comment and blank lines, with a newline inside a string field) x {workspace directory with a symlinked .p sibling, a .ppl sibling, two scripts that do not load (neither selected nor used), a non-script file and a directory named like a script; single file} x {json, lineprotocol} x {run, check only}, through the real binary " +
 			"(quick: every script with a rotating 1/13 of the input x configuration grid; thorough: the full grid for <=2 statements); oracle: stdout after the marker parsed back and compared with the same script and input run through the library API (measurement, tags, fields, time), errors reported and no output block, check-only prints nothing",
 		Assumptions: []string{"the influx line-protocol codec is trusted for parsing input and output", "text input: measurement default_name is pinned; time without an explicit timestamp is accepted within the invocation's wall-clock bracket +-2 s"},
 		Run:            c20Run,
